@@ -1030,3 +1030,155 @@ pub fn rec_expiry(args: &Args) {
     let n = out.finish();
     println!("{}", json!({"events": n}));
 }
+
+// ---- mixed sessions: several actors, realistic but untidy protocol use ------------------------------
+/// Each actor runs Block2 downloads / Block1 uploads against its key and, now and then, repeats a
+/// request, abandons and restarts, changes its token length or adds an option (overhead grows),
+/// skips a block, has a response pushed through the handler, or idles past a short expiry.
+/// Every call is judged on its own by Trace_BlockHandler, so any history is fair game.
+pub fn rec_mixed(args: &Args) {
+    let seed = args.u("seed", 1);
+    let thorough = args.thorough();
+    let mut r = Rng::new(seed ^ 0x313D);
+    let mut out = Out::create(args.s("out"));
+    let start = Instant::now();
+    let episodes = if thorough { 2500 } else { 220 };
+    let mut slept_ms = 0u64;
+    for e in 0..episodes {
+        let m = match r.below(6) { 0 => 64, 1 => 100, 2 => 300, 3 => 1152, 4 => 1280, _ => r.range(40, 1280) as usize };
+        let short_ttl = r.chance(1, 12) && slept_ms < (if thorough { 40_000 } else { 4_000 });
+        let ttl = if short_ttl { 40 } else { 3_600_000 };
+        let mut h = H::new(&mut out, m, ttl, start);
+        struct Actor {
+            ep: String,
+            code: u8,
+            segs: Vec<Vec<u8>>,
+            upload: bool,
+            body: Vec<u8>,
+            szx: u8,
+            off: usize,
+            b2: Option<(u16, u8)>,
+            toklen: usize,
+            extra: usize,
+            last: Option<Packet>,
+            gen: usize,
+        }
+        let keys: [(&str, u8, &[&str]); 5] = [("e1", 1, &["a", "b"]), ("e1", 1, &["a/b"]), ("e2", 1, &["a", "b"]), ("e1", 3, &["a", "b"]), ("e1", 2, &["a"])];
+        let mut actors: Vec<Actor> = (0..r.range(2, 4) as usize).map(|i| {
+            let (ep, code, segs) = keys[(i + e) % keys.len()];
+            let upload = code != 1;
+            Actor { ep: ep.to_string(), code, segs: segs.iter().map(|s| s.as_bytes().to_vec()).collect(), upload, body: vec![], szx: 0, off: 0, b2: None, toklen: 2, extra: 0, last: None, gen: 0 }
+        }).collect();
+        for a in actors.iter_mut() {
+            a.szx = r.below(4) as u8;
+            a.body = body_bytes(r.below(400) as usize, a.gen + e);
+            a.b2 = if r.chance(1, 2) { Some((0, a.szx)) } else { None };
+        }
+        let mut mid: u16 = r.next() as u16;
+        for _ in 0..r.range(8, 40) {
+            let n = actors.len();
+            let a = &mut actors[r.below(n as u64) as usize];
+            mid = mid.wrapping_add(1);
+            let tag = json!({"kind": "mixed"});
+            let action = r.below(100);
+            if action < 8 {
+                // repeat the previous request with a new message id
+                if let Some(mut p) = a.last.clone() {
+                    p.header.message_id = mid;
+                    let (o, mut req) = h.ireq(&mut out, &a.ep, &p, &tag);
+                    if o["k"] == "ok" && o["handled"] == false {
+                        if let Some(resp) = req.response.as_mut() {
+                            resp.message.header.code = if a.upload { 0x44 } else { 0x45 }.into();
+                            if !a.upload { resp.message.payload = a.body.clone(); }
+                        }
+                        let _ = h.iresp(&mut out, &a.ep, &mut req, &tag);
+                    }
+                }
+                continue;
+            }
+            if action < 14 {
+                // abandon and restart with another body (and possibly the other direction)
+                a.gen += 1;
+                a.body = body_bytes(r.below(400) as usize, a.gen + 17 * e);
+                a.off = 0;
+                a.szx = r.below(4) as u8;
+                a.b2 = if r.chance(1, 3) { Some((0, a.szx)) } else { None };
+                if r.chance(1, 4) && a.code != 1 { a.upload = !a.upload; }
+                continue;
+            }
+            if action < 19 {
+                a.toklen = r.below(9) as usize;
+                a.extra = *r.pick(&[0usize, 0, 13, 24, 60]);
+                continue;
+            }
+            if action < 21 && short_ttl {
+                std::thread::sleep(Duration::from_millis(ttl * 4 + 5));
+                slept_ms += ttl * 4 + 5;
+                out.ev(json!({"op": "sleep", "ms": ttl * 4 + 5}));
+                continue;
+            }
+            if action < 23 {
+                // a response pushed through the handler without a preceding request
+                let p = mkreq(&ReqSpec { code: a.code, typ: 0, mid, tok: r.bytes(a.toklen), segs: &a.segs, b1: None, b2: None, pay: vec![], extra: vec![] });
+                let mut pushed = CoapRequest::from_packet(p, Ep::new(&a.ep));
+                if let Some(resp) = pushed.response.as_mut() {
+                    resp.message.payload = body_bytes(r.below(120) as usize, 3);
+                }
+                let _ = h.iresp(&mut out, &a.ep, &mut pushed, &json!({"kind": "mixed-push"}));
+                continue;
+            }
+            let skip = action < 26;
+            let extra = if a.extra > 0 { vec![(15u16, vec![b'q'; a.extra])] } else { vec![] };
+            if a.upload {
+                let sz = 16usize << a.szx;
+                if skip { a.off += sz; }
+                let lo = a.off.min(a.body.len());
+                let hi = (lo + sz).min(a.body.len());
+                let more = hi < a.body.len();
+                let p = mkreq(&ReqSpec { code: a.code, typ: 0, mid, tok: r.bytes(a.toklen), segs: &a.segs, b1: Some(((a.off / sz).min(65535) as u16, more, a.szx)), b2: None, pay: a.body[lo..hi].to_vec(), extra });
+                a.last = Some(p.clone());
+                let (o, mut req) = h.ireq(&mut out, &a.ep, &p, &tag);
+                if o["k"] == "ok" && o["handled"] == false {
+                    if let Some(resp) = req.response.as_mut() {
+                        resp.message.header.code = 0x44.into();
+                        if r.chance(1, 5) { resp.message.payload = body_bytes(r.below(200) as usize, 9); }
+                    }
+                    let _ = h.iresp(&mut out, &a.ep, &mut req, &tag);
+                }
+                if more { a.off = hi; } else { a.off = 0; a.gen += 1; a.body = body_bytes(r.below(400) as usize, a.gen + 31 * e); }
+                // follow a smaller acknowledged size when aligned
+                if let Some(ack) = req.response.as_ref().and_then(over_the_wire).and_then(|p| block_of(&p, CoapOption::Block1)) {
+                    if ack.size_exponent < a.szx && a.off % (16usize << ack.size_exponent) == 0 { a.szx = ack.size_exponent; }
+                }
+            } else {
+                let mut b2 = a.b2;
+                if skip { b2 = b2.map(|(n, s)| (n + 2, s)); }
+                let p = mkreq(&ReqSpec { code: a.code, typ: r.below(2), mid, tok: r.bytes(a.toklen), segs: &a.segs, b1: None, b2: b2.map(|(n, s)| (n, false, s)), pay: vec![], extra });
+                a.last = Some(p.clone());
+                let (o, mut req) = h.ireq(&mut out, &a.ep, &p, &tag);
+                if o["k"] == "ok" && o["handled"] == false {
+                    if let Some(resp) = req.response.as_mut() {
+                        resp.message.header.code = 0x45.into();
+                        resp.message.payload = a.body.clone();
+                        if a.gen % 2 == 1 { resp.message.add_option(CoapOption::ETag, vec![a.gen as u8]); }
+                    }
+                    let _ = h.iresp(&mut out, &a.ep, &mut req, &tag);
+                }
+                match req.response.as_ref().and_then(over_the_wire).and_then(|p| block_of(&p, CoapOption::Block2)) {
+                    Some(b) if b.more => a.b2 = Some((b.num + 1, if r.chance(1, 10) && b.size_exponent > 0 { 0 } else { b.size_exponent })),
+                    _ => {
+                        a.gen += 1;
+                        a.body = body_bytes(r.below(400) as usize, a.gen + 13 * e);
+                        a.b2 = if r.chance(1, 2) { Some((0, r.below(4) as u8)) } else { None };
+                    }
+                }
+                if let Some((n, s)) = a.b2 {
+                    // a reduced size restates the offset in the new unit
+                    if s == 0 { if let Some(b) = req.response.as_ref().and_then(over_the_wire).and_then(|p| block_of(&p, CoapOption::Block2)) { if b.more && b.size_exponent > 0 { a.b2 = Some(((((b.num as usize + 1) * b.size()) / 16).min(65535) as u16, 0)); let _ = n; } } }
+                }
+            }
+        }
+    }
+    let n = out.finish();
+    println!("{}", json!({"events": n, "episodes": episodes, "slept_ms": slept_ms}));
+}
